@@ -152,16 +152,56 @@ fn write_file(dir: &PathBuf, i: usize, c: &Content) {
     }
 }
 
-struct Live {
-    k: std::sync::Arc<parking_lot::Mutex<Kanata>>,
-    tx: std::sync::mpsc::SyncSender<KeyEvent>,
-    srv_rx: std::sync::mpsc::Receiver<kanata_tcp_protocol::ServerMessage>,
-    outs: Vec<Out>,
+pub struct Live {
+    pub k: std::sync::Arc<parking_lot::Mutex<Kanata>>,
+    pub tx: std::sync::mpsc::SyncSender<KeyEvent>,
+    pub srv_rx: std::sync::mpsc::Receiver<kanata_tcp_protocol::ServerMessage>,
+    pub outs: Vec<Out>,
     /// time stretch: 1 normally, larger for the confirmation run
-    mult: u64,
+    pub mult: u64,
 }
 
 impl Live {
+    /// Start the real processing loop on the given configuration files.
+    pub fn start(paths: Vec<PathBuf>, mult: u64) -> Result<Live, String> {
+        let args = ValidatedArgs {
+            paths,
+            tcp_server_address: None,
+            symlink_path: None,
+            nodelay: true,
+        };
+        let k = Kanata::new_arc(&args).map_err(|e| format!("{e:?}"))?;
+        let (tx, rx) = std::sync::mpsc::sync_channel::<KeyEvent>(100);
+        let (srv_tx, srv_rx) = std::sync::mpsc::sync_channel(100);
+        Kanata::start_processing_loop(k.clone(), rx, Some(srv_tx), true);
+        Ok(Live { k, tx, srv_rx, outs: vec![], mult })
+    }
+    pub fn send_code(&mut self, code: u16, press: bool, then_ms: u64) {
+        let code = OsCode::from_u16(code).expect("key");
+        let _ = self.tx.send(KeyEvent { code, value: if press { KeyValue::Press } else { KeyValue::Release } });
+        if then_ms > 0 {
+            std::thread::sleep(std::time::Duration::from_millis(then_ms * self.mult));
+        }
+    }
+    /// wait until no more output arrives for 2 x 25 ms (at most 1 s), return everything new
+    pub fn settle(&mut self) -> Vec<Out> {
+        let mut all = vec![];
+        let mut quiet = 0;
+        for _ in 0..40 {
+            self.wait(25);
+            let new = self.drain();
+            if new.is_empty() {
+                quiet += 1;
+                if quiet >= 2 {
+                    break;
+                }
+            } else {
+                quiet = 0;
+                all.extend(new);
+            }
+        }
+        all
+    }
     fn send(&mut self, key: &str, press: bool) {
         let code = OsCode::from_u16(code_of(key)).expect("key");
         let _ = self.tx.send(KeyEvent { code, value: if press { KeyValue::Press } else { KeyValue::Release } });
@@ -171,11 +211,11 @@ impl Live {
         self.send(key, true);
         self.send(key, false);
     }
-    fn wait(&self, ms: u64) {
+    pub fn wait(&self, ms: u64) {
         std::thread::sleep(std::time::Duration::from_millis(ms * self.mult));
     }
     /// collect the output produced so far; returns the new part
-    fn drain(&mut self) -> Vec<Out> {
+    pub fn drain(&mut self) -> Vec<Out> {
         let mut k = self.k.lock();
         let mut new = vec![];
         for s in k.kbd_out.outputs.events.drain(..) {
